@@ -85,7 +85,7 @@ func main() {
 		os.Exit(0)
 	}
 
-	rule := "scenario = a block tree above a 101..108-block base chain (multi-output coinbases), 8..28 blocks, forks of depth 1..k incl. forks below the base tip, equal-work ties, invalid-when-connected blocks (double spend, missing / cross-branch input, immature coinbase, failing script, wrong key, spends of outputs locked by a HEIGHT-gated script rule — CLTV / CSV / P2WPKH with empty witness, which pass under the flags of height 0 —, overspend, coinbase overpay, own-coinbase spend, vout out of range) anywhere incl. on the winning branch and with descendants, random spend graphs (1..3 inputs, 1..4 outputs, partial spends, in-block chains); delivery = random topological order with children tried before parents, Idle() calls, final unwind of up to 6 blocks; second stream with the memory allocator wired and DefragAllImproved(Relocate) between deliveries; third stream random-mixed-bits: the genesis node carries bits 0x201fffff and every block is heavy (those bits) or light (0x207fffff, testnet 20-minute rule) at random, so that branches are heavier-but-not-taller, taller-but-lighter, and fall-backs after failed reorganisations see leaves of different work. fourth stream siblings: several episodes per scenario, each a parent with 3..5 children (the parent being the tip or a side block next to a competing main branch) of which one or two — mostly not the last — are invalid only when connected and arrived as side blocks, two or three of the surviving siblings' branches tie at the maximum work (delivery order inside a depth random; the first-seen leaf mostly on the earliest tied sibling), then the invalid siblings' branches become the heaviest one by one: the reorganisation fails at the sibling, DeleteBranch removes it from the middle of the child list and the FindFarthestNode fall-back shows the ORDER of the remaining children in the tip. Hand-made corpus scenarios first (past defects, ties, ties after a failed reorganisation with first child = / != first seen, genesis fork, failed reorganisation whose common block is genesis, heavier-not-taller, failed reorganisation with mixed bits, retarget/float work). One evaluation = one delivery/idle/defrag/undo step compared three ways; distinct = distinct (tip, utxo digest, outcome) observations"
+	rule := "scenario = a block tree above a 101..108-block base chain (multi-output coinbases), 8..28 blocks, forks of depth 1..k incl. forks below the base tip, equal-work ties, invalid-when-connected blocks (double spend, missing / cross-branch input, immature coinbase, failing script, wrong key, spends of outputs locked by a HEIGHT-gated script rule — CLTV / CSV / P2WPKH with empty witness, which pass under the flags of height 0 —, overspend, coinbase overpay, own-coinbase spend, vout out of range) anywhere incl. on the winning branch and with descendants, random spend graphs (1..3 inputs, 1..4 outputs, partial spends, in-block chains); delivery = random topological order with children tried before parents, Idle() calls, final unwind of up to 6 blocks; second stream with the memory allocator wired and DefragAllImproved(Relocate) between deliveries; third stream random-mixed-bits: the genesis node carries bits 0x201fffff and every block is heavy (those bits) or light (0x207fffff, testnet 20-minute rule) at random, so that branches are heavier-but-not-taller, taller-but-lighter, and fall-backs after failed reorganisations see leaves of different work. fourth stream siblings: several episodes per scenario, each a parent with 3..5 children (the parent being the tip or a side block next to a competing main branch) of which one or two — mostly not the last — are invalid only when connected and arrived as side blocks, two or three of the surviving siblings' branches tie at the maximum work (delivery order inside a depth random; the first-seen leaf mostly on the earliest tied sibling), then the invalid siblings' branches become the heaviest one by one: the reorganisation fails at the sibling, DeleteBranch removes it from the middle of the child list and the FindFarthestNode fall-back shows the ORDER of the remaining children in the tip. Every stream also delivers, before about every fifth block, a TWIN of it whose previous-block field keeps only the first 8 bytes (the BlockIndex key) of the parent's hash (bytes 8..31 changed in one of four ways, nonce re-mined). Hand-made corpus scenarios first (past defects, the prev-hash twin witness of fix 533896f3, ties, ties after a failed reorganisation with first child = / != first seen, genesis fork, failed reorganisation whose common block is genesis, heavier-not-taller, failed reorganisation with mixed bits, retarget/float work). One evaluation = one delivery/idle/defrag/undo step compared three ways; distinct = distinct (tip, utxo digest, outcome) observations"
 	expl := "after EVERY step the real chain's tip hash + full decoded UTXO dump + outcome are compared with (a) the Lean model (oracle_c06) and (b) the property predicate evaluated by an independent Go reference: tip = first-seen maximum-exact-work node whose whole branch is valid, UTXO = replay of that branch from genesis (a tie resolved against the first-seen block counts as the known finding only in the delivery whose reorganisation failed and only when the tip is the documented first-child fall-back choice, recomputed independently; any other choice is a violation); undo files of the active branch present (model) and actually usable (final unwind on the real chain)"
 
 	if r.Replay != "" {
@@ -157,6 +157,8 @@ func main() {
 		"no two transactions share a txid or an 8-byte txid prefix (BIP30/34; the key-prefix aliasing is property C04)",
 		"value sums stay below 2^64 (property C04)",
 		"headers are valid (PoW, time, bits, merkle: property C05); only tree- and UTXO-related acceptance is modelled",
+		"block look-ups: the model (deliverIdx) goes through the 8-byte BlockIndex key and compares the whole hash, as the code does since fix 533896f3; a previous-block FIELD that shares only its key with a known block is generated (twins) and must be an orphan; two different BLOCKS with the same first 8 hash bytes (2^64 work) are not generated",
+		"the model's commitTxs is a reduced one (no sigop limit, no MoneyRange on inputs/fees, no coinbase-script length): no generated side block is invalid for one of these reasons only",
 		"work is compared exactly (rationals) in model and reference; the code's float64 sums differ only on near-ties (corpus scenario o1-float-tie)",
 	}
 	keys := make([]string, 0, len(outcomeSeen))
